@@ -88,6 +88,7 @@ class GenAudit:
         self.n_dec_multi = 0
         self.started = set()  # elements for which a start pick was explained
         self.sig = []  # schedule signature (decision kind, #options, class chosen)
+        self.explained = []  # partner-type decisions with their options, for C16's trace validation
 
     # ------------------------------------------------------------------
     def probe(self, name, n=1):
@@ -281,7 +282,7 @@ class GenAudit:
                     chosen = i
             if chosen is None:
                 return None
-            return Template("list_transition", probs, chosen)
+            return Template("list_transition", probs, chosen, labels=list(alld))
         opts = [(t, k) for (t, k) in stoch.rbonds() if compatible(dsel, t.descs[k])]
         chosen = None
         for i, (t, k) in enumerate(opts):
@@ -289,7 +290,7 @@ class GenAudit:
                 chosen = i
         if chosen is None:
             return None
-        return Template("partner_pick", weights_rule([t.descs[k].weight for t, k in opts]), chosen)
+        return Template("partner_pick", weights_rule([t.descs[k].weight for t, k in opts]), chosen, labels=opts)
 
     def t_partner_cap(self, dsel, stoch, tok, ordinal):
         opts = [(t, k) for (t, k) in stoch.ebonds() if compatible(dsel, t.descs[k])]
@@ -299,13 +300,13 @@ class GenAudit:
                 chosen = i
         if chosen is None:
             return None
-        return Template("cap_partner_pick", weights_rule([t.descs[k].weight for t, k in opts]), chosen)
+        return Template("cap_partner_pick", weights_rule([t.descs[k].weight for t, k in opts]), chosen, labels=opts)
 
     def t_handover(self, dprefix, tok, ordinal):
         opts = [k for k in range(len(tok.descs)) if compatible(dprefix, tok.descs[k])]
         if ordinal not in opts:
             return None
-        return Template("handover_pick", weights_rule([tok.descs[k].weight for k in opts]), opts.index(ordinal))
+        return Template("handover_pick", weights_rule([tok.descs[k].weight for k in opts]), opts.index(ordinal), labels=[(tok, k) for k in opts])
 
     def standalone_templates(self):
         out = list(self.extra_standalone)
@@ -383,6 +384,13 @@ class GenAudit:
                 cls = "growth_or_cap"
             for t in tpls:
                 self.sig.append((t.kind, len(t.probs), t.chosen))
+            # remember partner-type decisions with the probability vector that was really handed to the generator
+            consumed = self.pending[len(self.pending) - n:]
+            last_t = tpls[-1]
+            if last_t.labels is not None:
+                obs = consumed[-1]["p"] if consumed and len(consumed[-1]["p"]) == len(last_t.probs) else list(last_t.probs)
+                self.explained.append({"kind": last_t.kind, "cls": cls, "source": tuple(vs["tag"]), "source_elem": self.elem_index(vs),
+                                       "elem": ei, "labels": last_t.labels, "p": list(obs), "chosen": last_t.chosen})
             del self.pending[len(self.pending) - n:]
         else:
             got = [{"n": d["n"], "p": [round(x, 12) for x in d["p"]], "i": d["i"]} for d in self.pending[-3:]]
